@@ -305,4 +305,3 @@ func verifySigDominates(c *Ctx, r *Report, rule string) {
 	})
 	r.Floor(rule, "success returns of Entry.Verify", nsucc, 1)
 }
-
